@@ -103,3 +103,42 @@ Proof.
 Qed.
 End P.
 Print Assumptions update_congruence.
+
+(* ---- length-preserving, pointwise related edits: sortedness and disjointness are not needed ---- *)
+Section Pointwise.
+Context {A : Type}.
+Variable P : A -> A -> Prop.
+Hypothesis P_refl : forall x, P x x.
+
+Lemma Forall2_firstn n : forall (l l' : list A), Forall2 P l l' -> Forall2 P (firstn n l) (firstn n l').
+Proof. induction n as [|n IH]; intros l l' H; cbn; [constructor|]. destruct H; constructor; auto. Qed.
+Lemma Forall2_skipn n : forall (l l' : list A), Forall2 P l l' -> Forall2 P (skipn n l) (skipn n l').
+Proof. induction n as [|n IH]; intros l l' H; cbn; [exact H|]. destruct H; [constructor|auto]. Qed.
+Lemma Forall2_length' (l l' : list A) : Forall2 P l l' -> length l = length l'.
+Proof. induction 1; cbn; auto. Qed.
+
+Definition inrange_lenpres (len : nat) (e : edit A) : Prop :=
+  e_start e <= e_stop e /\ e_stop e <= len /\ length (e_new e) = e_stop e - e_start e.
+
+Lemma apply1_pointwise l cur e : Forall2 P l cur -> inrange_lenpres (length l) e ->
+  Forall2 P (slice l (e_start e) (e_stop e)) (e_new e) -> Forall2 P l (apply1 cur e).
+Proof.
+  intros H (H1 & H2 & H3) Hs. unfold apply1. rewrite Nat.max_r by lia.
+  assert (E : l = firstn (e_start e) l ++ slice l (e_start e) (e_stop e) ++ skipn (e_stop e) l).
+  { unfold slice. rewrite <- (firstn_skipn (e_start e) l) at 1. f_equal.
+    rewrite <- (firstn_skipn (e_stop e - e_start e) (skipn (e_start e) l)) at 1. f_equal.
+    rewrite skipn_skipn'. f_equal. lia. }
+  rewrite E at 1. apply Forall2_app; [now apply Forall2_firstn|].
+  apply Forall2_app; [exact Hs|now apply Forall2_skipn].
+Qed.
+
+Theorem update_pointwise (es : list (edit A)) l :
+  Forall (fun e => inrange_lenpres (length l) e /\ Forall2 P (slice l (e_start e) (e_stop e)) (e_new e)) es ->
+  Forall2 P l (update l es).
+Proof.
+  intros H. unfold update. apply Forall_rev in H. revert H. generalize (rev es). intros rs H.
+  assert (G : forall cur, Forall2 P l cur -> Forall2 P l (fold_left apply1 rs cur)).
+  { induction H as [|e r [He Hs] _ IH]; intros cur Hc; cbn; [exact Hc|]. apply IH. now apply apply1_pointwise. }
+  apply G. clear G H. induction l as [|a l IHl]; constructor; [apply P_refl|exact IHl].
+Qed.
+End Pointwise.
